@@ -38,7 +38,7 @@ PROPS = {
     "C03": dict(
         modules=["Gopki.Props.C03"],
         theorems=["Rdn.parse_render"],
-        ops=["rdn", "validate"],
+        ops=["rdn", "validate", "pki"],
         rule="rdn: all 1-2-attribute subjects over a 12-key alphabet x 6 value shapes with 4 separator variants, random subjects up to 8 attributes, "
              "a hand-written list of inputs outside the documented grammar (escapes, #hex, malformed), random strings over a 12-symbol alphabet; "
              "validate: see C09 (here only the clause that validation leaves the subject unchanged); non-trivial = subject of the documented grammar",
@@ -48,7 +48,7 @@ PROPS = {
     "C04": dict(
         modules=["Gopki.Props.C04"],
         theorems=[],
-        ops=["validity"],
+        ops=["validity", "pki"],
         rule="validity: every calendar day of two years (thorough: 1950-2200) x rotating zone offsets x {from, until, from+duration, from+until}, boundary dates x 9 offsets x 15 durations, "
              "impossible dates, malformed durations, random combinations; non-trivial = well-formed input with at least one of from/until/duration",
         modelled=["modelled, not verified: time.ParseInLocation, time.Date normalisation, AddDate (proleptic Gregorian calendar, fixed zone offsets)"],
